@@ -35,6 +35,19 @@ def Rel' (live : Nat) (d : Bc.Loc w) (c : Bc.Cfg w) (m : MState w) : Prop :=
   (∀ t, 11 ≤ t → lo (m.stack t) = Bc.tget c.temps t) ∧
   (∀ o, m.tape o = c.st.rd o)
 
+/-- Agreement restricted to the register temporaries in `S` (all stack temporaries, the whole tape):
+the form that composes along a program. `Rel` is `RelOn (fun _ => True)`, `Rel' live d` is
+`RelOn (fun t => live.testBit t ∨ d = .tmp t)`. -/
+def RelOn (S : Nat → Prop) (c : Bc.Cfg w) (m : MState w) : Prop :=
+  (∀ t r, tmpReg t = some r → S t → lo (m.regs r) = Bc.tget c.temps t) ∧
+  (∀ t, 11 ≤ t → lo (m.stack t) = Bc.tget c.temps t) ∧
+  (∀ o, m.tape o = c.st.rd o)
+
+/-- A source operand that is a register temporary belongs to `S`. -/
+def SrcOk (S : Nat → Prop) : Bc.Loc w → Prop
+  | .tmp t => t < 11 → S t
+  | _ => True
+
 /-- Operand ranges: offsets and temporary numbers are values of `i32` (so that `idx as i32`, `tmp as i32`
 in `mem_param`/`tmp_param` do not wrap). -/
 def LocOk : Bc.Loc w → Prop
@@ -53,6 +66,18 @@ def rv (c : Bc.Cfg w) : Bc.Loc w → BitVec w
 /-- The code `xs` run from `m` ends in a state related to `c'`, with the frame registers intact. -/
 def Sim (live : Nat) (d : Bc.Loc w) (c' : Bc.Cfg w) (m : MState w) (xs : List X86) : Prop :=
   ∃ m', execAll xs m = some m' ∧ Rel' live d c' m' ∧
+    m'.regs .rbx = m.regs .rbx ∧ m'.regs .rbp = m.regs .rbp ∧ m'.regs .rsp = m.regs .rsp
+
+/-- The register temporaries known to agree after an instruction with live bitmap `live` and destination
+`d`, when those in `S` agreed before: the live ones of `S`, and the destination. -/
+def Post (S : Nat → Prop) (live : Nat) (d : Bc.Loc w) (t : Nat) : Prop :=
+  (S t ∧ live.testBit t = true) ∨ d = .tmp t
+
+/-- `Sim` with the precondition `RelOn S`: afterwards the register temporaries of `S` that are declared
+live, and the destination, agree. -/
+def SimOn (S : Nat → Prop) (live : Nat) (d : Bc.Loc w) (c' : Bc.Cfg w) (m : MState w) (xs : List X86) :
+    Prop :=
+  ∃ m', execAll xs m = some m' ∧ RelOn (Post S live d) c' m' ∧
     m'.regs .rbx = m.regs .rbx ∧ m'.regs .rbp = m.regs .rbp ∧ m'.regs .rsp = m.regs .rsp
 
 /-! ### Integers -/
@@ -190,6 +215,361 @@ theorem regs_setTmp (m : MState w) (t : Nat) (v : BitVec 64) {r : Reg}
 @[simp] theorem regs_setFlags (m : MState w) (z c : Option Bool) : (m.setFlags z c).regs = m.regs := rfl
 @[simp] theorem tape_setFlags (m : MState w) (z c : Option Bool) : (m.setFlags z c).tape = m.tape := rfl
 @[simp] theorem stack_setFlags (m : MState w) (z c : Option Bool) : (m.setFlags z c).stack = m.stack := rfl
+
+/-! ### Low bits -/
+
+theorem lo_add (hw : w ≤ 64) (a b : BitVec 64) : (lo (a + b) : BitVec w) = lo a + lo b :=
+  BitVec.setWidth_add a b hw
+
+theorem lo_mul (hw : w ≤ 64) (a b : BitVec 64) : (lo (a * b) : BitVec w) = lo a * lo b :=
+  BitVec.setWidth_mul a b hw
+
+theorem lo_neg (hw : w ≤ 64) (a : BitVec 64) : (lo (-a) : BitVec w) = -lo a := by
+  unfold lo
+  rw [BitVec.neg_eq_not_add, BitVec.setWidth_add _ _ hw, BitVec.setWidth_not hw, BitVec.neg_eq_not_add]
+  congr 1
+  apply BitVec.eq_of_toNat_eq
+  simp
+
+theorem lo_sub (hw : w ≤ 64) (a b : BitVec 64) : (lo (a - b) : BitVec w) = lo a + -lo b := by
+  rw [BitVec.sub_eq_add_neg, lo_add hw, lo_neg hw]
+
+theorem lo_ext (hw : w ≤ 64) (x : BitVec w) : (lo (x.setWidth 64) : BitVec w) = x := by
+  unfold lo
+  rw [BitVec.setWidth_setWidth_of_le x hw, BitVec.setWidth_eq]
+
+theorem lo_trunc {n : Nat} (hn : w ≤ n) (v : BitVec 64) : (lo (trunc n v) : BitVec w) = lo v := by
+  unfold lo trunc
+  ext i hi
+  have : i < n := by omega
+  simp [*]
+  exact fun h => BitVec.lt_of_getLsbD h
+
+theorem lo_mergeLow {n : Nat} (hn : w ≤ n) (hn' : n ≤ 64) (old v : BitVec 64) :
+    (lo (mergeLow n old v) : BitVec w) = lo v := by
+  unfold lo mergeLow
+  ext i hi
+  have : i < n := by omega
+  have : i < 64 := by omega
+  simp [lowMask, *]
+
+theorem lo_sizedWrite {sz : Size} (hsz : sz.bits = w) (old v : BitVec 64) :
+    (lo (sizedWrite sz old v) : BitVec w) = lo v := by
+  cases sz <;> simp only [Size.bits] at hsz <;> subst hsz <;> simp only [sizedWrite]
+  · exact lo_mergeLow (Nat.le_refl _) (by decide) _ _
+  · exact lo_mergeLow (Nat.le_refl _) (by decide) _ _
+  · exact lo_trunc (Nat.le_refl _) _
+
+/-- The result of the ALU at `n ≥ w` bits, seen through `lo`. -/
+theorem lo_alu_add {n : Nat} (hn : w ≤ n) (hn' : n ≤ 64) (a b : BitVec 64) :
+    (lo (alu .add n a b).1 : BitVec w) = lo a + lo b := by
+  have hw : w ≤ 64 := by omega
+  simp only [alu, lo_trunc hn, lo_add hw]
+
+theorem lo_alu_sub {n : Nat} (hn : w ≤ n) (hn' : n ≤ 64) (a b : BitVec 64) :
+    (lo (alu .sub n a b).1 : BitVec w) = lo a + -lo b := by
+  have hw : w ≤ 64 := by omega
+  simp only [alu, lo_trunc hn, lo_sub hw]
+
+theorem immVal_immI64 (c : BitVec w) : immVal (immI64 c) = c.signExtend 64 := by
+  simp only [immVal, immI64, Cell.intoI64, BitVec.ofInt_toInt]
+
+theorem lo_immI64 (hw : w ≤ 64) (c : BitVec w) : (lo (immVal (immI64 c)) : BitVec w) = c := by
+  rw [immVal_immI64]
+  unfold lo
+  ext i hi
+  have : i < 64 := by omega
+  simp [BitVec.getElem_signExtend, *]
+
+theorem wrapS_eq {bits : Nat} {x : Int} (h1 : -(2 ^ bits) ≤ 2 * x) (h2 : 2 * x < 2 ^ bits) :
+    wrapS bits x = x := by
+  simp only [wrapS]
+  have hp : (0 : Int) < 2 ^ bits := Int.pow_pos (by decide)
+  by_cases hx : 0 ≤ x
+  · have : x % 2 ^ bits = x := Int.emod_eq_of_lt hx (by omega)
+    rw [this]; split <;> omega
+  · have : x % 2 ^ bits = x + 2 ^ bits := by
+      rw [← Int.add_emod_right, Int.emod_eq_of_lt (by omega) (by omega)]
+    rw [this]; split <;> omega
+
+theorem truncImm_immI64 {sz : Size} (hsz : sz.bits = w) (c : BitVec w) :
+    truncImm sz (immI64 c) = immI64 c := by
+  cases sz <;> simp only [Size.bits] at hsz <;> subst hsz <;> simp only [truncImm]
+  · have := BitVec.two_mul_toInt_lt (x := c); have := BitVec.le_two_mul_toInt (x := c)
+    simp only [immI64, Cell.intoI64, BitVec.toInt_signExtend_of_le (show 8 ≤ 64 by decide), i8]
+    exact wrapS_eq (by omega) (by omega)
+  · have := BitVec.two_mul_toInt_lt (x := c); have := BitVec.le_two_mul_toInt (x := c)
+    simp only [immI64, Cell.intoI64, BitVec.toInt_signExtend_of_le (show 16 ≤ 64 by decide), i16]
+    exact wrapS_eq (by omega) (by omega)
+
+/-! ### Bytecode side -/
+
+theorem tget_tset (ts : Bc.Temps w) (i j : Nat) (v : BitVec w) :
+    Bc.tget (Bc.tset ts i v) j = if j = i then v else Bc.tget ts j := by
+  induction ts with
+  | nil => simp only [Bc.tset, Bc.tget]; split <;> split <;> first | rfl | omega
+  | cons kv rest ih =>
+    obtain ⟨k, v'⟩ := kv
+    simp only [Bc.tset]
+    by_cases hk : k = i
+    · subst hk
+      simp only [if_true, Bc.tget]
+      split <;> split <;> first | rfl | omega
+    · simp only [hk, if_false, Bc.tget, ih]
+      by_cases hj : j = i
+      · subst hj; simp [hk]
+      · simp [hj]
+
+theorem rd_wr (s : State w) (i j : Int) (v : BitVec w) :
+    (s.wr i v).rd j = if j = i then v else s.rd j := by
+  simp only [State.rd, State.wr, Tape.get_set]
+  split <;> split <;> first | rfl | omega
+
+/-- Without `memZero` operands reads have no effect, and the two-operand form (`sameDst`) computes the
+same value as the three-operand form. -/
+theorem binop_eq (f : BitVec w → BitVec w → BitVec w) (c : Bc.Cfg w) (d a b : Bc.Loc w)
+    (ha : ∀ o, a ≠ .memZero o) (hb : ∀ o, b ≠ .memZero o) :
+    Bc.binop f c d a b = Bc.writeLoc c (f (rv c a) (rv c b)) d := by
+  have rd : ∀ l : Bc.Loc w, (∀ o, l ≠ .memZero o) → Bc.readLoc c l = (rv c l, c) := by
+    intro l hl; cases l <;> simp_all [Bc.readLoc, rv]
+  unfold Bc.binop
+  split
+  · rename_i hs
+    have hda : d = a := by
+      cases d <;> cases a <;> simp_all [Bc.sameDst]
+    subst hda
+    simp only [rd b hb, rd d ha]
+  · simp only [rd a ha, rd b hb]
+
+/-! ### The relation in the temporaries view -/
+
+theorem relOn_iff (S : Nat → Prop) (c : Bc.Cfg w) (m : MState w) :
+    RelOn S c m ↔
+      (∀ t, (11 ≤ t ∨ S t) → lo (tmpVal m t) = Bc.tget c.temps t) ∧ (∀ o, m.tape o = c.st.rd o) := by
+  unfold RelOn tmpVal
+  constructor
+  · rintro ⟨h1, h2, h3⟩
+    refine ⟨fun t hk => ?_, h3⟩
+    by_cases h : t < 11
+    · simp only [tmpReg_lt h]
+      refine h1 t _ (tmpReg_lt h) ?_
+      rcases hk with hk | hk
+      · omega
+      · exact hk
+    · simp only [tmpReg_ge (Nat.le_of_not_lt h)]; exact h2 t (Nat.le_of_not_lt h)
+  · rintro ⟨h1, h3⟩
+    refine ⟨fun t r htr hk => ?_, fun t ht => ?_, h3⟩
+    · have := h1 t (Or.inr hk)
+      simpa only [htr] using this
+    · have := h1 t (Or.inl ht)
+      simpa only [tmpReg_ge ht] using this
+
+theorem relOn_post_iff (S : Nat → Prop) (live : Nat) (d : Bc.Loc w) (c : Bc.Cfg w) (m : MState w) :
+    RelOn (Post S live d) c m ↔
+      (∀ t, 11 ≤ t → lo (tmpVal m t) = Bc.tget c.temps t) ∧
+      (∀ t, S t → live.testBit t = true → lo (tmpVal m t) = Bc.tget c.temps t) ∧
+      (∀ t, d = .tmp t → lo (tmpVal m t) = Bc.tget c.temps t) ∧
+      (∀ o, m.tape o = c.st.rd o) := by
+  rw [relOn_iff]
+  unfold Post
+  constructor
+  · rintro ⟨h1, h2⟩
+    exact ⟨fun t h => h1 t (Or.inl h), fun t h h' => h1 t (Or.inr (Or.inl ⟨h, h'⟩)),
+      fun t h => h1 t (Or.inr (Or.inr h)), h2⟩
+  · rintro ⟨h1, h2, h3, h4⟩
+    refine ⟨fun t h => ?_, h4⟩
+    rcases h with h | ⟨h, h'⟩ | h
+    · exact h1 t h
+    · exact h2 t h h'
+    · exact h3 t h
+
+theorem relOn_mono {S S' : Nat → Prop} {c : Bc.Cfg w} {m : MState w} (h : RelOn S c m)
+    (hs : ∀ t, S' t → S t) : RelOn S' c m :=
+  ⟨fun t r htr hk => h.1 t r htr (hs t hk), h.2.1, h.2.2⟩
+
+theorem rel_iff_relOn (c : Bc.Cfg w) (m : MState w) : Rel c m ↔ RelOn (fun _ => True) c m :=
+  ⟨fun h => ⟨fun t r htr _ => h.1 t r htr, h.2.1, h.2.2⟩, fun h => ⟨fun t r htr => h.1 t r htr trivial, h.2.1, h.2.2⟩⟩
+
+theorem rel'_iff_relOn (live : Nat) (d : Bc.Loc w) (c : Bc.Cfg w) (m : MState w) :
+    Rel' live d c m ↔ RelOn (fun t => live.testBit t = true ∨ d = .tmp t) c m := Iff.rfl
+
+theorem sim_of_simOn {live : Nat} {d : Bc.Loc w} {c' : Bc.Cfg w} {m : MState w} {xs : List X86}
+    (h : SimOn (fun _ => True) live d c' m xs) : Sim live d c' m xs := by
+  obtain ⟨m', hx, hr, hf⟩ := h
+  refine ⟨m', hx, (rel'_iff_relOn ..).2 (relOn_mono hr ?_), hf⟩
+  intro t ht
+  rcases ht with ht | ht
+  · exact Or.inl ⟨trivial, ht⟩
+  · exact Or.inr ht
+
+/-! ### Operands -/
+
+theorem resolve_reg (r : Reg) : X86Sem.resolve w (.reg r) = some (.reg r) := rfl
+
+theorem resolve_tmpParam {t : Nat} (h : t < 2147483648) : X86Sem.resolve w (tmpParam t) = some (tmpPlace t) := by
+  unfold tmpParam tmpPlace
+  cases tmpReg t with
+  | some r => rfl
+  | none =>
+    simp only [i32_nat h, X86Sem.resolve]
+    have : (0 : Int) ≤ 8 * (t : Int) ∧ 8 * (t : Int) % 8 = 0 := by omega
+    rw [if_pos this]
+    congr 2
+    omega
+
+theorem resolve_memParam {sz : Size} (hsz : sz.bits = w) {idx : Int} (h1 : -2147483648 ≤ idx)
+    (h2 : idx < 2147483648) : X86Sem.resolve w (memParam sz idx) = some (.cell idx) := by
+  unfold memParam
+  rw [i32_eq h1 h2]
+  cases sz <;> simp only [Size.bits] at hsz <;> subst hsz <;>
+    simp [memr, X86Sem.resolve, Size.bytes, Int.mul_emod_right, Int.mul_ediv_cancel_left]
+
+theorem readPlace_tmpPlace (m : MState w) (t : Nat) : readPlace m .b64 (tmpPlace t) = some (tmpVal m t) := by
+  unfold tmpPlace tmpVal
+  cases tmpReg t <;> simp [readPlace]
+
+theorem readPlace_reg (m : MState w) (r : Reg) : readPlace m .b64 (.reg r) = some (m.regs r) := by
+  simp [readPlace]
+
+theorem readPlace_cell (m : MState w) {sz : Size} (hsz : sz.bits = w) (i : Int) :
+    readPlace m sz (.cell i) = some ((m.tape i).setWidth 64) := by
+  simp [readPlace, hsz]
+
+theorem writeReg_rax (m : MState w) (sz : Size) (v : BitVec 64) :
+    writeReg m sz .rax v = some (m.setReg .rax (sizedWrite sz (m.regs .rax) v)) := by
+  simp [writeReg]
+
+theorem writeReg_rcx (m : MState w) (sz : Size) (v : BitVec 64) :
+    writeReg m sz .rcx v = some (m.setReg .rcx (sizedWrite sz (m.regs .rcx) v)) := by
+  simp [writeReg]
+
+theorem writeReg_treg (m : MState w) (sz : Size) {t : Nat} (h : t < 11) (v : BitVec 64) :
+    writeReg m sz (treg t) v = some (setTmp m t (sizedWrite sz (tmpVal m t) v)) := by
+  have := treg_ne h
+  simp [writeReg, this, setReg_treg m h, regs_treg m h]
+
+theorem writePlace_tmpPlace (m : MState w) (t : Nat) (v : BitVec 64) :
+    writePlace m .b64 v (tmpPlace t) = some (setTmp m t v) := by
+  unfold tmpPlace setTmp
+  by_cases h : t < 11
+  · have := treg_ne h
+    simp [tmpReg_lt h, writePlace, writeReg, this, sizedWrite]
+  · simp [tmpReg_ge (Nat.le_of_not_lt h), writePlace]
+
+theorem writePlace_reg (m : MState w) (r : Reg) (v : BitVec 64) :
+    writePlace m .b64 v (.reg r) = writeReg m .b64 r v := by
+  simp [writePlace]
+
+theorem writePlace_cell (m : MState w) {sz : Size} (hsz : sz.bits = w) (i : Int) (v : BitVec 64) :
+    writePlace m sz v (.cell i) = some (m.setCell i (lo v)) := by
+  simp [writePlace, hsz, lo]
+
+@[simp] theorem sizedWrite_b64 (old v : BitVec 64) : sizedWrite .b64 old v = v := rfl
+
+/-! ### Execution without the `fits` tests -/
+
+def execAllCore : List X86 → MState w → Option (MState w)
+  | [], m => some m
+  | x :: xs, m => (execCore x m).bind (execAllCore xs)
+
+theorem execAll_eq_core (xs : List X86) (m : MState w) (h : xs.all X86.fits = true) :
+    execAll xs m = execAllCore xs m := by
+  induction xs generalizing m with
+  | nil => rfl
+  | cons x xs ih =>
+    simp only [List.all_cons, Bool.and_eq_true] at h
+    simp only [execAll, exec, h.1, if_true, execAllCore]
+    cases execCore x m with
+    | none => rfl
+    | some m' => exact ih m' h.2
+
+/-! ### Tactics -/
+
+theorem canScratch_ge {live t : Nat} (h : 11 ≤ t) : canScratch live t = false := by
+  simp [canScratch]; omega
+
+theorem canScratch_lt {live t : Nat} (h : canScratch live t = true) : t < 11 := by
+  simp [canScratch] at h; exact h.1
+
+theorem sz_le {sz : Size} (hsz : sz.bits = w) : w ≤ 64 := by
+  cases sz <;> simp [Size.bits] at hsz <;> omega
+
+@[simp] theorem immVal_zero : immVal 0 = 0#64 := by decide
+@[simp] theorem lo_zero : (lo 0#64 : BitVec w) = 0#w := by simp [lo]
+
+/-- Case split on the kind of a temporary (register / stack), leaving the facts the symbolic execution
+needs in the context. -/
+macro "tkind " t:term : tactic =>
+  `(tactic| rcases Nat.lt_or_ge $t 11 with hk | hk <;>
+      first
+      | (have := tmpReg_lt hk; have := treg_ne hk)
+      | (have := tmpReg_ge hk; have := fun live => canScratch_ge (live := live) hk))
+
+/-- Case split on `canScratch live t`, then on the kind of `t` where that is still open. -/
+macro "tscr " live:term:max t:term:max : tactic =>
+  `(tactic| by_cases hs : canScratch $live $t = true <;>
+      first
+      | (have hk := canScratch_lt hs; have := tmpReg_lt hk; have := treg_ne hk)
+      | tkind $t)
+
+/-- Case split on the equality of two temporaries / offsets; the equation is substituted, the
+disequation kept in both orientations. -/
+macro "teq " a:term:max b:term:max : tactic =>
+  `(tactic| by_cases heq : $a = $b <;>
+      first
+      | subst heq
+      | have := fun e : $b = $a => heq e.symm)
+
+/-- Symbolic execution of the emitted instruction list. -/
+macro "c03_run" : tactic =>
+  `(tactic| simp [execAllCore, execCore, aluRm, aluR, leaAddr, load, storeReg, storeI32, addReg, addToReg,
+      addI32, subReg, subToReg, mov64, st64, add64, sub64, addImm64, scr0, scr1, resolve_memParam,
+      resolve_tmpParam, resolve_reg, readPlace_tmpPlace, readPlace_reg, readPlace_cell, writeReg_rax,
+      writeReg_rcx, writeReg_treg, writePlace_tmpPlace, writePlace_reg, writePlace_cell,
+      regs_treg, setReg_treg, tmpVal_setTmp, tmpVal_setReg_rax, tmpVal_setReg_rcx, regs_setTmp,
+      truncImm_immI64, *])
+
+macro "c03_leaf" : tactic =>
+  `(tactic| ((try simp_all [lo_alu_add, lo_alu_sub, lo_add, lo_mul, lo_ext, lo_immI64, lo_sizedWrite,
+      canScratch]) <;> first | done | ac_rfl | omega))
+
+macro "c03_tmp" : tactic =>
+  `(tactic| (
+    simp [tmpVal_setTmp, tmpVal_setReg_rax, tmpVal_setReg_rcx, tget_tset, rv, Size.bits]
+    try ((repeat' split) <;> c03_leaf)))
+
+/-- The final state is related to the bytecode result. -/
+macro "c03_fin" : tactic =>
+  `(tactic| (
+    rw [relOn_post_iff]
+    refine ⟨fun t hk => ?_, fun t hk hl => ?_, fun t hk => ?_, fun o => ?_⟩
+    · c03_tmp
+    · c03_tmp
+    · cases hk <;> c03_tmp
+    · simp [rd_wr, rv, Size.bits, *]
+      try ((repeat' split) <;> c03_leaf)))
+
+/-- One leaf of the case analysis of a selector: `h : emit… = some xs` with all tests decided. -/
+macro "c03_arm " h:ident : tactic =>
+  `(tactic| (simp [emitAdd, emitCopy, emitSub, emitMul, *] at $h:ident <;> (subst $h:ident; c03_run; c03_fin)))
+
+/- Common prelude of the per-family lemmas (fixed hypothesis names). -/
+set_option hygiene false in
+macro "c03_pre" : tactic =>
+  `(tactic| (
+    have hw : w ≤ 64 := sz_le hsz
+    rw [relOn_iff] at hrel
+    obtain ⟨hT, hM⟩ := hrel
+    try simp only [SrcOk] at hsa
+    try simp only [SrcOk] at hsb
+    try simp only [LocOk] at hd
+    try simp only [LocOk] at ha
+    try simp only [LocOk] at hb
+    simp only [Bc.writeLoc, Option.some.injEq] at hc
+    subst hc
+    unfold SimOn
+    rw [execAll_eq_core _ _ hfit]
+    clear hfit))
 
 end C03
 end Hpbf
